@@ -24,4 +24,5 @@ var Registry = map[string]func(Args) error{
 	"sctpanswer":  SCTPAnswer,
 	"marshal":     Marshal,
 	"muxconc":     MuxConc,
+	"errrep":      ErrRep,
 }
